@@ -19,7 +19,7 @@ COQ_CHECK = "Idle.check_case"
 COQ_CASE_TYPE = "Idle.case"
 COQ_BRANCHES = ("Idle.case_branches", "Idle.n_branches")
 SHARD = 200
-RULE = ("one connection (plain or TLS) to a real http.Server with tymeout T in {-2..12} (given as tymeout= to http.Server, which "
+RULE = ("one connection (plain or TLS) to a real http.Server with tymeout T in {-2..12} (given as tymeout= to http.Server or timeout= to http.BareServer (20% of cases, unfinished requests only), which "
         "builds its tcp.Server/ServerTls, or configured on a tcp.Server/ServerTls injected as servant, with or without "
         "the same tymeout= argument) accepted at tyme t0; 2-30 "
         "service passes, each after advancing virtual tyme by 0..2T+2 units, with the client idle, delivering 1-4 "
@@ -145,6 +145,15 @@ def directed():
         {"tls": False, "T": 5, "t0": 0, "inject": 1, "passes": [P(0, "idle"), P(4, "idle"), P(1, "idle")]},
         {"tls": False, "T": 3, "t0": 0, "inject": 2, "passes": [P(0, "idle"), P(2, "idle"), P(1, "idle")]},
         {"tls": True, "T": 8, "t0": 0, "inject": 2, "passes": [P(0, "reqdefer", 1, NEVER), P(5, "idle"), P(2, "idle"), P(1, "idle")]},
+        # http.BareServer (parameter `timeout`), own and injected servant, http and https (seeded change C12-11 witness:
+        # https with own servant)
+        {"tls": True, "cls": "bare", "T": 3, "t0": 0, "passes": [P(0, "idle"), P(1, "idle"), P(1, "idle"), P(1, "idle")]},
+        {"tls": True, "cls": "bare", "T": 4, "t0": 0, "passes": [P(0, "rx", 1), P(3, "rx", 1), P(3, "rx", 2), P(3, "idle"), P(1, "idle")]},
+        {"tls": True, "cls": "bare", "T": 0, "t0": 0, "passes": [P(0, "idle"), P(1, "idle"), P(9, "idle")]},
+        {"tls": False, "cls": "bare", "T": 3, "t0": 0, "passes": [P(0, "idle"), P(2, "rx", 1), P(2, "idle"), P(1, "idle")]},
+        {"tls": True, "cls": "bare", "inject": 1, "T": 2, "t0": 0, "passes": [P(0, "idle"), P(1, "idle"), P(1, "idle")]},
+        {"tls": False, "cls": "bare", "inject": 2, "T": 7, "t0": 0, "passes": [P(0, "idle"), P(5, "idle"), [0, ["wind"], 0], P(6, "idle"),
+                                                                            P(1, "idle")]},
         # client keeps sending while the response is stuck: that is traffic
         {"tls": False, "T": 3, "t0": 0, "passes": [P(0, "reqclose", 1, cap=0), P(2, "rx", 1, cap=0), P(2, "rx", 1, cap=0),
                                                     P(2, "idle", cap=0), P(1, "idle", cap=0)]},
@@ -218,6 +227,10 @@ def generate(rng, tier):
             passes.append([dt, a, c])
         out.append({"tls": tls, "T": T, "t0": t0, "passes": passes, "unit": rng.choice([1.0, 1.0, 0.25, 0.03125, 8.0]),
                     "hdrs": rng.choice([0] + list(range(1, 61))), "inject": rng.choice([0, 0, 1, 1, 2])})
+        if rng.random() < 0.2:      # http.BareServer: its request handling is not modelled, so unfinished requests only
+            out[-1]["cls"] = "bare"
+            out[-1]["passes"] = [[dt, ["rx", a[1]] if a[0] in ("req", "reqclose", "reqdefer") else a, c]
+                                 for dt, a, c in passes]
     return out
 
 
@@ -329,19 +342,24 @@ def _make_server(case, world, tymeout):
     from hio.core.http import serving as hserving
     from hio.core.tcp import serving as tserving
     inject = int(case.get("inject", 0))
+    bare = case.get("cls", "server") == "bare"      # http.BareServer: same connection handling, parameter `timeout`
+    cls = hserving.BareServer if bare else hserving.Server
+    tkey = "timeout" if bare else "tymeout"
+    base = {} if bare else {"app": _app}
     if not inject:
-        kw = dict(port=world.port, host="127.0.0.1", tymeout=tymeout, app=_app)
+        kw = dict(base, port=world.port, host="127.0.0.1")
+        kw[tkey] = tymeout
         if case["tls"]:
             kw.update(scheme="https", context=fk.FakeContext())
-        return hserving.Server(**kw)
+        return cls(**kw)
     if case["tls"]:
         servant = tserving.ServerTls(host="127.0.0.1", port=world.port, tymeout=tymeout, context=fk.FakeContext())
     else:
         servant = tserving.Server(host="127.0.0.1", port=world.port, tymeout=tymeout)
-    kw = dict(servant=servant, app=_app)
+    kw = dict(base, servant=servant)
     if inject == 2:
-        kw["tymeout"] = tymeout
-    return hserving.Server(**kw)
+        kw[tkey] = tymeout
+    return cls(**kw)
 
 
 def run_impl(case):
@@ -353,7 +371,11 @@ def run_impl(case):
     out = []
     with fk.patched(world):
         srv = _make_server(case, world, float(case["T"]) * u)
-        srv.wind(tymist.tymen())
+        reps = getattr(srv, "reps", {})        # BareServer has stewards instead; the driver sends it no complete request
+        if case.get("cls") == "bare" and any(_norm(p)[1][0] in ("req", "reqclose", "reqdefer") for p in case["passes"]):
+            raise AssertionError("BareServer cases carry unfinished requests only")
+        wind = getattr(srv, "wind", None) or srv.servant.wind     # BareServer has no wind of its own
+        wind(tymist.tymen())
         if not srv.reopen():
             raise AssertionError("reopen failed")
         servant = srv.servant
@@ -365,14 +387,14 @@ def run_impl(case):
             if a[0] == "wind":
                 # the server is wound to another Tymist whose tyme is dt (absolute, in model units)
                 tymist = tyming.Tymist(tyme=float(dt) * u, tock=u)
-                srv.wind(tymist.tymen())
+                wind(tymist.tymen())
                 if core is None:
                     raise AssertionError("wind before the first pass is not supported by the driver")
                 closed = core.closes > 0
                 out.append({"closed": closed, "tmo": _as_int(ix.tymeout / u), "st": _as_int(ix.tymer._start / u),
                             "sp": _as_int(ix.tymer._stop / u), "pend": 0 if closed else len(ix.txbs),
                             "sent": 0, "now": _as_int(tymist.tyme / u),
-                            "inprog": (not closed) and ca in srv.reps and not srv.reps[ca].ended})
+                            "inprog": (not closed) and ca in reps and not reps[ca].ended})
                 continue
             tymist.tyme = tymist.tyme + float(dt) * u
             world.send_cap = None if cap >= ALL else cap
@@ -405,7 +427,7 @@ def run_impl(case):
             out.append({"closed": closed, "tmo": _as_int(ix.tymeout / u), "st": _as_int(ix.tymer._start / u),
                         "sp": _as_int(ix.tymer._stop / u), "pend": 0 if closed else len(ix.txbs),
                         "sent": len(core.sent) - sent_before, "now": _as_int(tymist.tyme / u),
-                        "inprog": (not closed) and ca in srv.reps and not srv.reps[ca].ended})
+                        "inprog": (not closed) and ca in reps and not reps[ca].ended})
         world.send_cap = None
         srv.close()
         leaked = world.open_ids()
@@ -542,6 +564,7 @@ def shrink(case):
 def distribution(cases, obs):
     d = {"tls": sum(1 for c in cases if c["tls"]), "T<=0": sum(1 for c in cases if c["T"] <= 0),
          "closed": 0, "with_nonpersistent_response": 0, "with_blocked_send_while_pending": 0,
+         "bare_server": sum(1 for c in cases if c.get("cls") == "bare"),
          "with_injected_servant": sum(1 for c in cases if c.get("inject")),
          "with_header_variants": sum(1 for c in cases if c.get("hdrs")),
          "with_response_in_progress": sum(1 for o in obs if isinstance(o, dict) and any(q.get("inprog") for q in o.get("passes", []))),
